@@ -585,6 +585,10 @@ inductive Expr (K D : Type) where
   | invEnabler (a : Expr K D)
   | block (dom : Nat) (subdoms : List Nat) (ents : List (Expr K D))
   | missing
+  /-- `SumOperator.make(ops, neg)` called directly with any number of operands -/
+  | sumN (args : List (Expr K D)) (neg : List Bool)
+  /-- `ChainOperator.make(ops)` called directly with any number of operands -/
+  | chainN (args : List (Expr K D))
 deriving Inhabited
 
 def isMissing : Expr K D → Bool | .missing => true | _ => false
@@ -649,6 +653,14 @@ def build : Expr K D → Except String (Op K D)
     | .ok es => mkBlock dm sd es
     | .error e => .error e
   | .missing => .error "bad-script"
+  | .sumN args neg =>
+    match seqExcept (args.map fun e => build e) with
+    | .ok xs => mkSum S xs neg
+    | .error e => .error e
+  | .chainN args =>
+    match seqExcept (args.map fun e => build e) with
+    | .ok xs => mkChain S xs
+    | .error e => .error e
 
 end buildExpr
 
